@@ -215,7 +215,7 @@ reference.uses_impl = True
 
 
 # ---- generators -----------------------------------------------------------------------------------
-def shapes_scope(nmax, nfull, rng=None, limit=None):
+def shapes_scope(nmax, nfull, rng=None, sample_n=None, nperms=0):
     """every insertion order of the keys 1,3,..,2n-1 (n <= nmax; this reaches every tree shape that
     plain inserts can build) followed by every single follow-up op: removal at every position / of
     every key, plain and hinted insert of every key (present keys and all gaps) at every iterator
@@ -224,7 +224,10 @@ def shapes_scope(nmax, nfull, rng=None, limit=None):
     for c in (0, 1):
         for n in range(0, nmax + 1):
             keys = [2 * i + 1 for i in range(n)]
-            for perm in itertools.permutations(keys):
+            perms = itertools.permutations(keys)
+            if n == sample_n:
+                perms = [tuple(rng.sample(keys, n)) for _ in range(nperms)]
+            for perm in perms:
                 pre = ["dom 0 %d" % (2 * n), "obs 0"] + [f"{c} ins {k} {10 + j}" for j, k in enumerate(perm)] + ["obs 2"]
                 if c == 1 and n >= 2:
                     # multimap: make two keys equal so that runs of equal keys occur
@@ -249,9 +252,6 @@ def shapes_scope(nmax, nfull, rng=None, limit=None):
                             fol.append([f"{c} rmat {p}", f"{c} ins {k} 98"])
                 for f in fol:
                     hs.append(pre + f)
-    if limit and len(hs) > limit:
-        rng.shuffle(hs)
-        hs = hs[:limit]
     return hs
 
 
@@ -378,8 +378,8 @@ def histories_for(ctx):
     quick = ctx.tier == "quick"
     hs = C.load_corpus(ctx.prop)
     ncorpus = len(hs)
-    sh = short_scope(3 if quick else 4)
-    shp = shapes_scope(5 if quick else 7, 4 if quick else 5, rng, None if quick else 700000)
+    sh = short_scope(4)
+    shp = shapes_scope(5, 4) if quick else shapes_scope(7, 5, rng, sample_n=7, nperms=500)
     rnd = []
     for _ in range(500 if quick else 6000):
         rnd.append(gen_random(rng, rng.choice([10, 20, 40, 80]), rng.choice([1, 2, 3, 5, 8, 12, 16])))
@@ -393,10 +393,9 @@ def histories_for(ctx):
                 big.append(gen_big(rng, n, pat, c))
     ctx.cov["rule"] = (
         f"corpus ({ncorpus}) + exhaustive short scope: all op sequences (plain/hinted insert at every valid position, remove by key / "
-        f"iterator, clear) of length <= {3 if quick else 4} over keys 0..2, Map and MultiMap ({len(sh)} histories) + exhaustive shape scope: "
-        f"every insertion order of n <= {5 if quick else 7} keys followed by every single removal / plain / hinted insert of every key at "
-        f"every iterator position, count, front/back, and every pair of follow-ups for n <= {4 if quick else 5} ({len(shp)} histories"
-        f"{'' if quick else ', sampled to 700000'}) + {len(rnd)} random histories of 10..400 ops over 1..64 keys on Map, MultiMap and a second "
+        f"iterator, clear) of length <= 4 over keys 0..2, Map and MultiMap ({len(sh)} histories) + exhaustive shape scope: "
+        f"every insertion order of n <= {5 if quick else 6} keys{'' if quick else ' (and 500 random orders of 7 keys)'} followed by every single removal / plain / hinted insert of every key at "
+        f"every iterator position, count, front/back, and every pair of follow-ups for n <= {4 if quick else 5} ({len(shp)} histories) + {len(rnd)} random histories of 10..400 ops over 1..64 keys on Map, MultiMap and a second "
         f"Map (copy, bulk insert) + {len(big)} ascending/descending/zig-zag/random/hinted runs of {sizes} keys with finds; "
         "distinct_nontrivial = distinct (op-kind set, final observation) among histories ending with >= 3 entries")
     ctx.cov["exhaustive"] = False
